@@ -61,6 +61,7 @@ pub fn configs(thorough: bool) -> Vec<EpCfg> {
         }
     }
     v.extend(super::eps::large_id_configs("c06", "c06", thorough));
+    v.extend(super::eps::clean_start_expiry_configs("c06", "c06", thorough));
     // v5: property blocks of 125..130 bytes on publishes that register an alias: the stored copy (alias removed)
     // crosses the one-byte / two-byte Property Length boundary
     for pad in [119usize, 120, 121, 122] {
